@@ -275,15 +275,9 @@ def has_bad(d: dict) -> bool:
 
 def prune_extra(m: Any) -> Any:
     """drop entries that hold only (recursively) empty mappings: a nested node without unknown keys is not unknown data"""
-    if isinstance(m, dict):
-        out = {}
-        for k, v in m.items():
-            pv = prune_extra(v)
-            if isinstance(pv, dict) and not pv:
-                continue
-            out[k] = pv
-        return out
-    return m
+    # (this used to drop empty nested mappings on BOTH sides of the comparison, which hid that the loader delivered {'nest': {}} for
+    #  a nested node without unknown keys - DESIGN.md section 0.7; the collected data is now compared as it is)
+    return dict(m) if isinstance(m, dict) else m
 
 
 # ---- alpha on model load errors -------------------------------------------------------------------------
@@ -606,7 +600,9 @@ def run_program(case: dict, seed: int, names: Names, out: dict, kind=None) -> No
                 # that the loader forbids is merged in, every field part of the layout) --------------------------------
                 if (dtname in loaders and not kwargs_prog and case["created_in"] and case["paths_in"] == case["paths_out"]
                         and (case["sch"]["extra_out"]["p"] == "skip" or case["sch"]["extra_in"]["p"] != "forbid")
-                        and all(p for p in case["paths_in"])):
+                        and all(p or (case["sch"]["extra_in"]["p"] == "target" and case["sch"]["extra_out"]["p"] == "target"
+                                      and case["sch"]["extra_in"]["f"] == case["sch"]["extra_out"]["f"] == i)
+                                for i, p in enumerate(case["paths_in"], start=1))):
                     out["runs"] += 1
                     try:
                         back = loaders[dtname](got)
